@@ -350,9 +350,20 @@ func (state *RuntimeState) webauthnAuthFinish(w http.ResponseWriter, r *http.Req
 
 	// TODO: disinguish better between the two protocols or just use one
 	//metricLogAuthOperation(getClientType(r), proto.AuthTypeU2F, true)
+	// The challenge is one-time: consume it only if it is still the pending
+	// one (a concurrent request may have used it).
 	state.Mutex.Lock()
-	delete(state.localAuthData, authData.Username)
+	pendingAuth, stillPending := state.localAuthData[authData.Username]
+	stillPending = stillPending &&
+		pendingAuth.WebAuthnChallenge == localAuth.WebAuthnChallenge
+	if stillPending {
+		delete(state.localAuthData, authData.Username)
+	}
 	state.Mutex.Unlock()
+	if !stillPending {
+		http.Error(w, "challenge missing", http.StatusBadRequest)
+		return
+	}
 
 	//TODO: distinguish here u2f vs webauthn
 	eventNotifier.PublishAuthEvent(eventmon.AuthTypeU2F, authData.Username)
